@@ -20,9 +20,14 @@ Tests refine the operands they mention (names, len(name), truthiness), both side
 excludes is dropped, so a statement is *abstractly unreachable* exactly when every path to it passes a test that is false for
 every value of the entry case.
 
+Calls: a local `def` is interpreted at its call sites in the caller's scope (closure); a callee named by the caller's `resolve`
+hook (module-level function, plain method of the same class) is interpreted in a fresh scope, containers passed by name are written
+back, tuple returns are kept position-wise; every other call is opaque: its result is Top, tainted when an argument is.
+
 The caller fixes the entry case (the interval of the budget on entry) and reads
-    events   every reachable store  X[...]['field'] = v  (constant string key, not one of the local containers) with the
-             abstract value stored, per call chain of local helpers;
+    events   every reachable store  X[...]['field'] = v  (constant string key, not one of the local containers; also a dict display
+             {'field': v} / dict(field=v) / .update(field=v) for the fields in `record_fields`) with the abstract value stored, per
+             call chain; `neg` = the value on a visit where a negative part stems from a definitely negative budget read;
     origins  the statements at which the budget was read into another quantity, with the budget's interval there;
     opaque   budget-derived values handed to constructs that are not interpreted (the caller must decline).
 """
@@ -396,6 +401,7 @@ class Analyzer:
         self.n_loops = 0
         self.escaped = self._escaped_names(fn)
         self._esc_cache: Dict[int, set] = {}
+        self._not_cache: Dict[int, ast.AST] = {}
 
     # ---- which names may be aliased -----------------------------------------------------
     @staticmethod
@@ -478,7 +484,7 @@ class Analyzer:
         if isinstance(e, ast.UnaryOp):
             v = self.ev(e.operand, s)
             if isinstance(e.op, ast.Not):
-                return Num(Itv(Fraction(0), Fraction(1)))
+                return BoolT(e, self.snapshot(e, s))
             if isinstance(v, Num) and isinstance(e.op, (ast.USub, ast.UAdd)):
                 return v if isinstance(e.op, ast.UAdd) else replace(v, itv=-v.itv, fc=-v.fc, z=-v.z, bud=False)
             return Top(tainted(v), origins_of(v))
@@ -486,8 +492,11 @@ class Analyzer:
             return self.binop(e.op, self.ev(e.left, s), self.ev(e.right, s))
         if isinstance(e, ast.BoolOp):
             r = None
-            for x in e.values:
-                r = join_av(r, self.ev(x, s))
+            vals = [self.ev(x, s) for x in e.values]
+            if all(isinstance(x, (BoolT, Cont)) for x in vals):
+                return BoolT(e, self.snapshot(e, s))      # a condition kept in a local: branched on later (while its operands are unchanged)
+            for x in vals:
+                r = join_av(r, x)
             return r
         if isinstance(e, ast.Compare):
             for x in [e.left] + list(e.comparators):
@@ -1289,7 +1298,14 @@ class Analyzer:
             t, _ = self.branch(st.test, s)
             return Flow(t)
         if isinstance(st, ast.If):
+            flag = self.flag_idiom(st, s)
             t, f = self.branch(st.test, s)
+            if flag is not None and t is not None and f is not None:
+                # if T: x = True  else: x = False   (or a default overridden in one branch): x is the condition T itself
+                name, pos = flag
+                test = st.test if pos else self._not_cache.setdefault(id(st), ast.UnaryOp(op=ast.Not(), operand=st.test))
+                s.set(name, BoolT(test, self.snapshot(st.test, s)), st)
+                return Flow(s)
             out = Flow(None)
             for sub, body in ((t, st.body), (f, st.orelse)):
                 if sub is None:
@@ -1310,6 +1326,25 @@ class Analyzer:
                     self.bind_target(item.optional_vars, Top(tainted(v)), s, st)
             return self.block(st.body, s)
         raise AnalysisError(f'{self.where}: statement `{pf.nsrc(st)[:60]}` at line {st.lineno} is not interpreted by the sign analysis')
+
+    @staticmethod
+    def _const_assign(body: Sequence[ast.stmt]) -> Optional[Tuple[str, bool]]:
+        if len(body) == 1 and isinstance(body[0], ast.Assign) and len(body[0].targets) == 1 and isinstance(body[0].targets[0], ast.Name) \
+                and isinstance(body[0].value, ast.Constant) and isinstance(body[0].value.value, (bool, int)):
+            return body[0].targets[0].id, bool(body[0].value.value)
+        return None
+
+    def flag_idiom(self, st: ast.If, s: State) -> Optional[Tuple[str, bool]]:
+        a = self._const_assign(st.body)
+        if a is None or any(isinstance(n, ast.NamedExpr) for n in ast.walk(st.test)) or a[0] in {n.id for n in ast.walk(st.test) if isinstance(n, ast.Name)}:
+            return None
+        if st.orelse:
+            b = self._const_assign(st.orelse)
+            return (a[0], a[1]) if (b is not None and b[0] == a[0] and b[1] != a[1]) else None
+        cur = s.vars.get(a[0])
+        if isinstance(cur, Num) and cur.itv.single() and cur.fc.is_zero() and bool(cur.itv.lo) != a[1]:
+            return a[0], a[1]
+        return None
 
     def loop(self, st: ast.stmt, s0: State, it) -> Flow:
         """while (it is None) / for loops: fixpoint over the loop head with widening"""
